@@ -3882,6 +3882,82 @@ def dispatch_contracts():
         raises=[Raises(BAD, sub=True, when=lambda c: spec_start_header(ph_arch(c))[1],
                        label="bad signature / version / CRC, truncated file, or the end header refused")],
         note="SignatureHeader of 7zFormat.txt over any archive file; zlib.crc32 uninterpreted; pack positions are relative to byte 32"))
+    out.extend(facade_contracts())
+    return out
+
+
+# ---- SevenZipFile: the facade archive_extractor talks to (its ASSUMED model there: needs_password / list / extractall of ONE reader)
+READER_REFUSES = z3.Function("reader_extractall_refuses", S, B)
+
+
+def facade_contracts():
+    """SevenZipFile.list / needs_password / extractall delegate to the reader built on the SAME file: each calls the reader method of
+    its name exactly once, extractall with the caller's path and `source_file` = the file the facade was opened on (the bytes the layout
+    contracts of SevenZipReader.extractall speak about), and hands the reader's result back; Bad7zFile when not opened.  The reader methods
+    are seen through call-site views that record the call (SevenZipReader.extractall itself is verified in layout_contracts)."""
+    out = []
+
+    def view(meth, params, raises):
+        def rm(ex, st, ctx):
+            r = NONE if meth == "extractall" else VExt("ReaderResult")
+            st.ghost["reader_calls"] = st.ghost.get("reader_calls", ()) + ((meth, dict(ctx.args), r),)
+            return r
+        return FnContract(target=f"{RD}.{meth}", assumed=True, params=[("self", p_unk())] + params, result_maker=rm, raises=raises,
+                          note="call-site view for the SevenZipFile facade: the call is recorded (receiver, arguments, result)")
+    out.append(view("list", [], []))
+    out.append(view("needs_password", [], []))
+    sf_maker = p_opt(p_ext("ArchiveFile"))
+    try:        # a call that omits source_file gets the default of the REAL signature (only when that is the literal None)
+        fn = loader.module(SEVEN).functions.get("SevenZipReader.extractall")
+        names = [a.arg for a in fn.args.args]
+        dflt = dict(zip(names[len(names) - len(fn.args.defaults):], fn.args.defaults)).get("source_file")
+        if isinstance(dflt, ast.Constant) and dflt.value is None:
+            sf_maker.default = lambda ex, st: NONE
+    except Exception:  # noqa  no default: such a call is out of subset
+        pass
+    out.append(view("extractall", [("path", p_str()), ("source_file", sf_maker)],
+                    [Raises("ValueError", when=lambda c: z3.Length(c.args["path"].t) == 0, label="empty path (verified on the reader)"),
+                     Raises(BAD, sub=True, when=lambda c: READER_REFUSES(c.args["path"].t), label="extraction failed")]))
+
+    def facade():
+        return p_obj("SevenZipFile", {"_file": p_ext("ArchiveFile"), "_password": p_unk(),
+                                      "_reader": p_alts(p_const(None), p_obj("SevenZipReader", {}))})
+
+    def reader_of(c):
+        return c.entry.obj(c.args["self"].ref).data["_reader"]
+
+    def delegates(meth):
+        def f(c):
+            calls = c.st.ghost.get("reader_calls", ())[len(c.entry.ghost.get("reader_calls", ())):]
+            rd = reader_of(c)
+            if len(calls) != 1 or calls[0][0] != meth or not isinstance(rd, VRef):
+                return z3.BoolVal(False)
+            _m, a, r = calls[0]
+            goal = [z3.BoolVal(isinstance(a.get("self"), VRef) and a["self"].ref == rd.ref)]
+            if meth == "extractall":
+                sf, fl = a.get("source_file"), c.entry.obj(c.args["self"].ref).data["_file"]
+                goal.append(ops.eq_term(a["path"], c.args["path"]) if isinstance(a.get("path"), VStr) else z3.BoolVal(False))
+                # the reader reads from `source_file`, or from the file it was built on when that is None (SevenZipFile.__enter__ builds
+                # it on the facade's own file: not under contract, covered by the native scope): both name the same bytes
+                goal.append(sf.t == fl.t if isinstance(sf, VExt) and sf.sort == "ArchiveFile" else z3.BoolVal(sf is NONE or sf is None))
+                goal.append(z3.BoolVal(c.result is NONE))
+            else:
+                goal.append(z3.BoolVal(isinstance(c.result, VExt) and c.result is r))
+            return z3.And(goal)
+        return f
+
+    for meth, extra in (("list", []), ("needs_password", []), ("extractall", [("path", p_str())])):
+        rs = [Raises(BAD, sub=True, label="archive not opened" + (" / extraction failed" if extra else ""),
+                     when=(lambda c: z3.Or(z3.BoolVal(reader_of(c) is NONE), READER_REFUSES(c.args["path"].t))) if extra
+                     else (lambda c: z3.BoolVal(reader_of(c) is NONE)))]
+        if extra:
+            rs.append(Raises("ValueError", when=lambda c: z3.Length(c.args["path"].t) == 0, label="empty path (from the reader)"))
+        out.append(FnContract(
+            target=f"{SEVEN}::SevenZipFile.{meth}", params=[("self", facade())] + extra,
+            ensures=[(f"reader-{meth}-called-once-on-the-opened-reader" + ("-with-the-path-and-no-other-file-than-its-own" if extra else "-and-its-result-returned"),
+                      internal(delegates(meth))),
+                     ("returns-only-if-opened", internal(lambda c: z3.BoolVal(reader_of(c) is not NONE)))],
+            raises=rs, note="facade of the own 7z reader (py7zr-compatible surface)"))
     return out
 
 
